@@ -221,7 +221,42 @@ def a6_transforms(ctx, fr):
                 t = st.targets[0] if isinstance(st, ast.Assign) else st.target
                 if isinstance(t, ast.Subscript) and isinstance(t.value, ast.Subscript) and au.src(t.value.value) == f"{mesh}.vertices":
                     stores.append((st, "component", t.value.slice))
-        if not stores and q not in TRANSFORMS:
+        # in-place updates of stored vectors reached through an alias (loop target over the vertices, P = mesh.vertices[i], a view)
+        b0 = sym.Bindings(fn)
+        inplace = []
+        for st in au.stmts(fn.body):
+            tgt = None
+            if isinstance(st, ast.AugAssign):
+                tgt = st.target if isinstance(st.target, ast.Name) else (st.target.value if isinstance(st.target, (ast.Subscript, ast.Attribute)) else None)
+            elif isinstance(st, ast.Assign) and isinstance(st.targets[0], (ast.Subscript, ast.Attribute)) \
+                    and not (isinstance(st.value, ast.Constant)):
+                tgt = st.targets[0].value
+            if not isinstance(tgt, ast.Name):
+                continue
+            name = tgt.id
+            is_vertex_alias = False
+            d = b0.reaching(name, st)
+            if d is not None:
+                for a in fr.aliases(d) | ({au.src(d)} if isinstance(d, ast.Subscript) else set()):
+                    pass
+                root = d
+                while isinstance(root, ast.Call) and au.call_tail(root) in ("Vec", "asarray") and len(root.args) == 1:
+                    root = root.args[0]
+                is_vertex_alias = isinstance(root, ast.Subscript) and au.src(root.value) in (f"{mesh}.vertices", f"{mesh}.vertices._data")
+            else:
+                for a in au.ancestors(st):
+                    if isinstance(a, ast.For) and name in au.assigned_names(a.target):
+                        it = a.iter
+                        if isinstance(it, ast.Call) and au.call_tail(it) == "enumerate" and it.args:
+                            it = it.args[0]
+                        is_vertex_alias = au.src(it) in (f"{mesh}.vertices", f"{mesh}.vertices._data")
+            if is_vertex_alias:
+                inplace.append(st)
+        for st in inplace:
+            ctx.fail("C06-A6", ctx.site(TR, fn, st), f"{q}: `{au.src(st)}` updates a stored vertex vector in place through an alias",
+                     "numpy in-place arithmetic mutates the array object itself: a vector stored under two vertex ids (ring(open=True)), "
+                     "or shared with the caller's array (from_arrays) or with another mesh, is transformed twice / behind the caller's back")
+        if not stores and q not in TRANSFORMS and not inplace:
             continue
         n += 1
         site = ctx.site(TR, fn)
